@@ -218,16 +218,28 @@ Proof.
 Qed.
 
 Ltac norm :=
-  unfold set_thread, set_obj, set_chans, set_threads, set_objs, log, set_wg, spawn, do_panic, returns, with_pc;
+  unfold spawn, do_panic, set_thread, set_obj, set_chans, set_wg, log, set_threads, set_objs, returns, with_pc;
   cbn [c_objs c_chans c_wg c_threads c_trace c_panic th_prog th_pc th_rets app fst snd].
-Ltac unfold_step := unfold step_or_stay; cbn [fst snd]; unfold step; norm.
+
+Lemma step_unfold c t ch th :
+  c_panic c = None -> nth_error (c_threads c) t = Some th -> step c t ch = step_thread c t th ch.
+Proof. intros Hp Ht. unfold step. rewrite Hp, Ht. reflexivity. Qed.
+
+(* execute the next schedule entry, thread state [th], under the facts in the context *)
+Lemma run_cons c tc s : run c (tc :: s) = run (step_or_stay c tc) s.
+Proof. reflexivity. Qed.
+
+Ltac exec_step th :=
+  rewrite ?upd_upd; rewrite run_cons; unfold step_or_stay; cbn [fst snd];
+  rewrite (step_unfold _ _ _ th) by (norm; first [assumption | reflexivity | apply nth_error_upd_eq; assumption]);
+  unfold step_thread; cbn [th_pc th_prog th_rets].
 
 (* Unsub(nil): one step, returns ErrSubscriptionNotInitalized, nothing else changes. *)
 Lemma unsub_nil_step c t th o rest ch :
   c_panic c = None -> nth_error (c_threads c) t = Some th ->
   th_pc th = PIdle -> th_prog th = CUnsub o None :: rest ->
   step c t ch = Some (set_thread c t (Thread rest PIdle (th_rets th ++ [RErr ErrSubscriptionNotInitalized]))).
-Proof. intros Hp Ht Hpc Hpr. unfold step. rewrite Hp, Ht, Hpc, Hpr. reflexivity. Qed.
+Proof. intros Hp Ht Hpc Hpr. rewrite (step_unfold _ _ _ th) by assumption. unfold step_thread. rewrite Hpc, Hpr. reflexivity. Qed.
 
 (* Unsub(sub) of a channel that is not subscribed: two steps (Lock + subIndex;
    Unlock), returns ErrAlreadyUnsubscribed; subscriptions, channels, trace and
@@ -247,10 +259,10 @@ Proof.
   assert (Lo : o < length (c_objs c)) by (eapply nth_error_some_lt; eauto).
   destruct (sub_index_spec (o_subs ob) sub) as [[_ E]|(n & _ & Hnth & _)];
     [|exfalso; apply Hn; eapply nth_error_In; eauto].
-  cbn [run]. unfold_step. rewrite Hp, Ht, Hpc, Hpr. cbn [step_call]. rewrite Ho, Hl, E. cbn [Z.eqb Pos.eqb]. norm.
-  unfold_step. rewrite Hp, nth_error_upd_eq by exact Lt. norm.
+  exec_step th. rewrite Hpc, Hpr. cbn [step_call]. rewrite Ho, Hl, E. cbn [Z.eqb Pos.eqb]. norm.
+  exec_step (Thread rest (PUnsubU o (RErr ErrAlreadyUnsubscribed)) (th_rets th)). norm.
   rewrite nth_error_upd_eq by exact Lo. norm.
-  rewrite !upd_upd. unfold set_wr. cbn. reflexivity.
+  cbn [run]. rewrite !upd_upd, Hp. unfold set_wr. cbn. reflexivity.
 Qed.
 
 (* Unsub(sub) of a subscribed, open channel: three steps (Lock + subIndex;
@@ -274,13 +286,14 @@ Proof.
   assert (Lo : o < length (c_objs c)) by (eapply nth_error_some_lt; eauto).
   destruct (sub_index_spec (o_subs ob) sub) as [[F _]|(n & E & Hnth & _)]; [contradiction|].
   assert (En : (Z.of_nat n =? -1)%Z = false) by (apply Z.eqb_neq; lia).
-  cbn [run]. unfold_step. rewrite Hp, Ht, Hpc, Hpr. cbn [step_call]. rewrite Ho, Hl, E, En, Nat2Z.id. norm.
-  unfold_step. rewrite Hp, nth_error_upd_eq by exact Lt. norm.
+  exec_step th. rewrite Hpc, Hpr. cbn [step_call]. rewrite Ho, Hl, E, En, Nat2Z.id. norm.
+  exec_step (Thread rest (PUnsubClose o n) (th_rets th)). norm.
   rewrite nth_error_upd_eq by exact Lo. unfold set_wr at 1. cbn [o_subs]. rewrite Hnth.
   unfold close_chan. norm. rewrite Hc, Hop. norm. rewrite Hp.
-  unfold_step. rewrite Hp, upd_upd, nth_error_upd_eq by exact Lt. norm.
+  exec_step (Thread rest (PUnsubU o RNil) (th_rets th)). norm.
   rewrite upd_upd, nth_error_upd_eq by exact Lo. norm.
-  rewrite !upd_upd. unfold set_wr, set_subs. cbn. rewrite (splice_is_remove _ _ _ Hnth ND). reflexivity.
+  cbn [run]. rewrite !upd_upd. unfold set_wr, set_subs. cbn.
+  rewrite <- (splice_is_remove _ _ _ Hnth ND). reflexivity.
 Qed.
 
 Definition close_one (chs : list chan) (ci : cid) : list chan :=
@@ -313,11 +326,12 @@ Proof.
   - assert (Lt : t < length (c_threads c)) by (eapply nth_error_some_lt; eauto).
     inversion ND as [|? ? Hni ND']; subst.
     destruct (Hop ci (or_introl eq_refl)) as (chn & Hc & Ho).
-    cbn [length repeat run]. unfold_step. rewrite Hp, Ht, Hpc. unfold close_chan. norm. rewrite Hc, Ho. norm. rewrite Hp.
-    erewrite IH; norm.
+    cbn [length repeat]. exec_step th. rewrite Hpc. unfold close_chan. norm. rewrite Hc, Ho. norm. rewrite Hp.
+    match goal with |- run ?c1 _ = _ =>
+      rewrite (IH c1 t (Thread (th_prog th) (PUnsubAllLoop o rest) (th_rets th)) o) end; norm.
     + rewrite upd_upd. cbn [map rev]. rewrite <- app_assoc. cbn [app].
       unfold close_all at 2. cbn [fold_left]. unfold close_one at 2. rewrite Hc. reflexivity.
-    + exact Hp.
+    + reflexivity.
     + apply nth_error_upd_eq; exact Lt.
     + reflexivity.
     + exact ND'.
@@ -345,11 +359,14 @@ Proof.
   assert (Lt : t < length (c_threads c)) by (eapply nth_error_some_lt; eauto).
   assert (Lo : o < length (c_objs c)) by (eapply nth_error_some_lt; eauto).
   replace (length (o_subs ob) + 2) with (1 + (length (o_subs ob) + 1)) by lia.
-  rewrite <- !repeat_app, !run_app. cbn [repeat run].
-  unfold_step. rewrite Hp, Ht, Hpc, Hpr. cbn [step_call]. rewrite Ho, Hl. norm.
-  erewrite unsuball_loop_solo; norm.
-  - unfold_step. rewrite upd_upd, nth_error_upd_eq by exact Lt. norm.
-    rewrite nth_error_upd_eq by exact Lo. norm. rewrite !upd_upd.
+  rewrite !repeat_app, !run_app. cbn [repeat].
+  replace (run c [(t, Plain)]) with (step_or_stay c (t, Plain)) by reflexivity.
+  unfold step_or_stay; cbn [fst snd]; rewrite (step_unfold _ _ _ th) by assumption; unfold step_thread.
+  rewrite Hpc, Hpr. cbn [step_call]. rewrite Ho, Hl. norm.
+  match goal with |- run (run ?c1 _) _ = _ =>
+    rewrite (unsuball_loop_solo (o_subs ob) c1 t (Thread rest (PUnsubAllLoop o (o_subs ob)) (th_rets th)) o) end; norm.
+  - exec_step (Thread rest (PUnsubAllLoop o []) (th_rets th)). norm.
+    rewrite nth_error_upd_eq by exact Lo. norm. cbn [run]. rewrite !upd_upd.
     unfold set_wr, set_subs. cbn. reflexivity.
   - exact Hp.
   - apply nth_error_upd_eq; exact Lt.
@@ -379,10 +396,958 @@ Proof.
   intros Hp Ht Hpc Hpr Ho Hl ND.
   assert (Lt : t < length (c_threads c)) by (eapply nth_error_some_lt; eauto).
   assert (Lo : o < length (c_objs c)) by (eapply nth_error_some_lt; eauto).
-  cbn [run]. unfold_step. rewrite Hp, Ht, Hpc, Hpr. cbn [step_call]. rewrite Ho, Hl. norm.
-  unfold_step. rewrite Hp, nth_error_upd_eq by exact Lt. norm.
+  exec_step th. rewrite Hpc, Hpr. cbn [step_call]. rewrite Ho, Hl. norm.
+  match goal with |- context [PWithOnlyU o ?cl] => exec_step (Thread rest (PWithOnlyU o cl) (th_rets th)) end. norm.
   rewrite nth_error_upd_eq by exact Lo. norm.
-  rewrite !upd_upd, upd_length, withonly_loop_spec by exact ND. unfold set_rd. cbn [o_subs o_rd o_wr o_ww o_timeout o_cb o_defbuf remove_one].
-  rewrite Nat.eqb_refl. rewrite (upd_same o) by (destruct ob; exact Ho). reflexivity.
+  cbn [run]. rewrite !upd_upd, upd_length, withonly_loop_spec by exact ND. unfold set_rd. cbn [o_subs o_rd o_wr o_ww o_timeout o_cb o_defbuf remove_one].
+  rewrite Nat.eqb_refl. rewrite (upd_same o) by (destruct ob; exact Ho). rewrite ?Hp. reflexivity.
 Qed.
 
+
+(* ------------------------------------------------------------------ *)
+(* The step function as a relation (one constructor per transition)     *)
+(* ------------------------------------------------------------------ *)
+
+(* the thread is about to start call [cl] (fresh, or after having waited for the write lock) *)
+Definition starts (th : thread) (cl : call) (rest : list call) : Prop :=
+  (th_pc th = PIdle /\ th_prog th = cl :: rest) \/
+  (exists l, th_pc th = PLockWait l /\ cl = call_of l /\ rest = th_prog th).
+
+Definition pub_ps (sl : bool) (evs : list Z) (subs : list cid) : list pair :=
+  if sl then pairs_slice 0 evs subs else pairs_one (hd 0%Z evs) subs.
+Definition pub_pc (k : callid) (o : oid) (sl : bool) (w : wkind) (evs : list Z) (subs : list cid) : pc :=
+  match w with
+  | Wait => PAdd k o (if sl then length subs * length evs else length subs) (pub_ps sl evs subs)
+  | _ => PLoop k o (pub_ps sl evs subs)
+  end.
+
+Definition lock_target (l : lcall) : oid :=
+  match l with LSub o | LSubBuf o _ | LUnsub o _ | LUnsubAll o => o end.
+
+Inductive send_trans (c : config) (t : tid) (th : thread) (k : callid) (p : pair)
+          (timeout : Z) (cb : bool) (pc_sent pc_cb : pc) : config -> Prop :=
+| S_Panic chn :
+    nth_error (c_chans c) (p_sub p) = Some chn -> ch_closed chn = true ->
+    send_trans c t th k p timeout cb pc_sent pc_cb (do_panic c t SendOnClosed)
+| S_Buf chn :
+    nth_error (c_chans c) (p_sub p) = Some chn -> ch_closed chn = false ->
+    length (ch_buf chn) < ch_cap chn ->
+    send_trans c t th k p timeout cb pc_sent pc_cb
+      (log (set_thread (set_chans c (upd (p_sub p) (Chan (ch_buf chn ++ [p_ev p]) (ch_cap chn) false) (c_chans c)))
+                       t (with_pc th pc_sent)) [EDone k p; EHandoff k p])
+| S_To chn r thr :
+    nth_error (c_chans c) (p_sub p) = Some chn -> ch_closed chn = false -> ch_cap chn = 0 ->
+    nth_error (c_threads c) r = Some thr -> recv_target thr = Some (p_sub p) ->
+    send_trans c t th k p timeout cb pc_sent pc_cb
+      (log (set_thread (set_thread c r (deliver thr (p_ev p))) t (with_pc th pc_sent))
+           [EDone k p; ERecv r (p_sub p) (p_ev p); EHandoff k p])
+| S_TimeoutCb :
+    (0 < timeout)%Z -> cb = true ->
+    send_trans c t th k p timeout cb pc_sent pc_cb
+      (log (set_thread c t (with_pc th pc_cb)) [ETimeout k p])
+| S_TimeoutNoCb :
+    (0 < timeout)%Z -> cb = false ->
+    send_trans c t th k p timeout cb pc_sent pc_cb
+      (log (set_thread c t (with_pc th pc_sent)) [EDone k p; ETimeout k p]).
+
+Inductive trans (c : config) (t : tid) (th : thread) : config -> Prop :=
+| T_PubStart cl rest sl w o evs ob :
+    starts th cl rest ->
+    (cl = CPubOne w o (hd 0%Z evs) /\ sl = false /\ length evs = 1 \/ cl = CPubSlice w o evs /\ sl = true) ->
+    nth_error (c_objs c) o = Some ob -> rlock_free ob = true ->
+    trans c t th
+      (log (set_thread (set_obj c o (set_rd ob (t :: o_rd ob))) t
+              (Thread rest (pub_pc (CallId t (length (th_rets th)) (sl, w)) o sl w evs (o_subs ob)) (th_rets th)))
+           [ERLock (CallId t (length (th_rets th)) (sl, w)) o evs (o_subs ob)])
+| T_WithOnlyStart rest o sub ob :
+    starts th (CWithOnly o sub) rest ->
+    nth_error (c_objs c) o = Some ob -> rlock_free ob = true ->
+    trans c t th
+      (set_thread (set_obj c o (set_rd ob (t :: o_rd ob))) t
+         (Thread rest (PWithOnlyU o (PsObj (withonly_loop sub (o_subs ob)) [] None None (o_timeout ob) (o_cb ob) 0%Z))
+                 (th_rets th)))
+| T_SubPanic l rest o size ob :
+    starts th (call_of l) rest ->
+    (l = LSub o /\ size = o_defbuf ob \/ l = LSubBuf o size) ->
+    nth_error (c_objs c) o = Some ob -> lock_free t ob = true -> (size < 0)%Z ->
+    trans c t th (do_panic c t OtherPanic)
+| T_SubStart l rest o size ob :
+    starts th (call_of l) rest ->
+    (l = LSub o /\ size = o_defbuf ob \/ l = LSubBuf o size) ->
+    nth_error (c_objs c) o = Some ob -> lock_free t ob = true -> (0 <= size)%Z ->
+    trans c t th
+      (log (set_thread (set_obj (set_chans c (c_chans c ++ [Chan [] (Z.to_nat size) false]))
+                                o (set_subs (set_wr ob (Some t)) (o_subs ob ++ [length (c_chans c)])))
+                       t (Thread rest (PSubU o (length (c_chans c))) (th_rets th)))
+           [ESub o (length (c_chans c))])
+| T_Announce l rest ob :
+    th_pc th = PIdle -> th_prog th = call_of l :: rest ->
+    nth_error (c_objs c) (lock_target l) = Some ob -> lock_free t ob = false -> can_announce ob = true ->
+    trans c t th
+      (set_thread (set_obj c (lock_target l) (set_ww ob (Some t))) t (Thread rest (PLockWait l) (th_rets th)))
+| T_UnsubNil rest o :
+    starts th (CUnsub o None) rest ->
+    trans c t th (set_thread c t (Thread rest PIdle (th_rets th ++ [RErr ErrSubscriptionNotInitalized])))
+| T_UnsubStart rest o sub ob :
+    starts th (CUnsub o (Some sub)) rest ->
+    nth_error (c_objs c) o = Some ob -> lock_free t ob = true ->
+    trans c t th
+      (set_thread (set_obj c o (set_wr ob (Some t))) t
+         (Thread rest (if (sub_index (o_subs ob) sub =? -1)%Z then PUnsubU o (RErr ErrAlreadyUnsubscribed)
+                       else PUnsubClose o (Z.to_nat (sub_index (o_subs ob) sub))) (th_rets th)))
+| T_UnsubAllStart rest o ob :
+    starts th (CUnsubAll o) rest ->
+    nth_error (c_objs c) o = Some ob -> lock_free t ob = true ->
+    trans c t th
+      (set_thread (set_obj c o (set_wr ob (Some t))) t (Thread rest (PUnsubAllLoop o (o_subs ob)) (th_rets th)))
+| T_RecvVal ci chn v buf' :
+    recv_target th = Some ci -> nth_error (c_chans c) ci = Some chn -> ch_buf chn = v :: buf' ->
+    trans c t th
+      (log (set_thread (set_chans c (upd ci (Chan buf' (ch_cap chn) (ch_closed chn)) (c_chans c))) t (deliver th v))
+           [ERecv t ci v])
+| T_RecvClosed ci chn :
+    recv_target th = Some ci -> nth_error (c_chans c) ci = Some chn -> ch_buf chn = [] -> ch_closed chn = true ->
+    trans c t th (set_thread c t (deliver_closed th))
+| T_Add k o n ps :
+    th_pc th = PAdd k o n ps ->
+    trans c t th
+      (set_thread (set_wg c (wg_set (c_wg c) (k_tid k) (k_n k) (c_wg c (k_tid k) (k_n k) + n)))
+                  t (with_pc th (PLoop k o ps)))
+| T_SyncSend k o p ps ob c' :
+    th_pc th = PLoop k o (p :: ps) -> nth_error (c_objs c) o = Some ob -> snd (k_var k) = Sync ->
+    send_trans c t th k p (o_timeout ob) (o_cb ob) (PLoop k o ps) (PSyncCb k o p ps) c' ->
+    trans c t th c'
+| T_Spawn k o p ps ob :
+    th_pc th = PLoop k o (p :: ps) -> nth_error (c_objs c) o = Some ob -> snd (k_var k) <> Sync ->
+    trans c t th
+      (spawn (set_thread c t (with_pc th (PLoop k o ps)))
+             (Thread [] (PGoSend k p (o_timeout ob) (o_cb ob)
+                                 (match snd (k_var k) with Wait => true | _ => false end)) []))
+| T_LoopEndWait k o ob :
+    th_pc th = PLoop k o [] -> nth_error (c_objs c) o = Some ob -> snd (k_var k) = Wait ->
+    trans c t th (set_thread (set_obj c o (set_rd ob (remove_one t (o_rd ob)))) t (with_pc th (PWait k)))
+| T_LoopEndRet k o ob :
+    th_pc th = PLoop k o [] -> nth_error (c_objs c) o = Some ob -> snd (k_var k) <> Wait ->
+    trans c t th
+      (log (set_thread (set_obj c o (set_rd ob (remove_one t (o_rd ob)))) t (returns th RUnit)) [EPubRet k])
+| T_SyncCb k o p ps :
+    th_pc th = PSyncCb k o p ps ->
+    trans c t th (log (set_thread c t (with_pc th (PLoop k o ps))) [EDone k p; ECallback k p])
+| T_WaitRet k :
+    th_pc th = PWait k -> c_wg c (k_tid k) (k_n k) = 0 ->
+    trans c t th (log (set_thread c t (returns th RUnit)) [EPubRet k])
+| T_GoSend k p timeout cb wg c' :
+    th_pc th = PGoSend k p timeout cb wg ->
+    send_trans c t th k p timeout cb (after_send wg k p) (PGoCb k p wg) c' ->
+    trans c t th c'
+| T_GoCb k p wg :
+    th_pc th = PGoCb k p wg ->
+    trans c t th (log (set_thread c t (with_pc th (after_send wg k p))) [EDone k p; ECallback k p])
+| T_GoDonePanic k p :
+    th_pc th = PGoDone k p -> c_wg c (k_tid k) (k_n k) = 0 ->
+    trans c t th (do_panic c t OtherPanic)
+| T_GoDone k p m :
+    th_pc th = PGoDone k p -> c_wg c (k_tid k) (k_n k) = S m ->
+    trans c t th (set_thread (set_wg c (wg_set (c_wg c) (k_tid k) (k_n k) m)) t (with_pc th PExit))
+| T_WithOnlyU o clone ob :
+    th_pc th = PWithOnlyU o clone -> nth_error (c_objs c) o = Some ob ->
+    trans c t th
+      (set_thread (set_objs c (upd o (set_rd ob (remove_one t (o_rd ob))) (c_objs c) ++ [clone]))
+                  t (returns th (RView (length (c_objs c)))))
+| T_SubU o ci ob :
+    th_pc th = PSubU o ci -> nth_error (c_objs c) o = Some ob ->
+    trans c t th (set_thread (set_obj c o (set_wr ob None)) t (returns th (RChan ci)))
+| T_UnsubCloseIdx o idx ob :
+    th_pc th = PUnsubClose o idx -> nth_error (c_objs c) o = Some ob -> nth_error (o_subs ob) idx = None ->
+    trans c t th (do_panic c t IndexOutOfRange)
+| T_UnsubCloseNil o idx ob ci :
+    th_pc th = PUnsubClose o idx -> nth_error (c_objs c) o = Some ob -> nth_error (o_subs ob) idx = Some ci ->
+    nth_error (c_chans c) ci = None ->
+    trans c t th (do_panic c t NilDeref)
+| T_UnsubCloseClosed o idx ob ci chn :
+    th_pc th = PUnsubClose o idx -> nth_error (c_objs c) o = Some ob -> nth_error (o_subs ob) idx = Some ci ->
+    nth_error (c_chans c) ci = Some chn -> ch_closed chn = true ->
+    trans c t th (do_panic c t SendOnClosed)
+| T_UnsubCloseOk o idx ob ci chn :
+    th_pc th = PUnsubClose o idx -> nth_error (c_objs c) o = Some ob -> nth_error (o_subs ob) idx = Some ci ->
+    nth_error (c_chans c) ci = Some chn -> ch_closed chn = false ->
+    trans c t th
+      (set_thread (set_obj (log (set_chans c (upd ci (Chan (ch_buf chn) (ch_cap chn) true) (c_chans c))) [EClose t o ci])
+                           o (set_subs ob (firstn idx (o_subs ob) ++ skipn (S idx) (o_subs ob))))
+                  t (with_pc th (PUnsubU o RNil)))
+| T_UnsubU o r ob :
+    th_pc th = PUnsubU o r -> nth_error (c_objs c) o = Some ob ->
+    trans c t th (set_thread (set_obj c o (set_wr ob None)) t (returns th r))
+| T_UnsubAllNil o ci rest :
+    th_pc th = PUnsubAllLoop o (ci :: rest) -> nth_error (c_chans c) ci = None ->
+    trans c t th (do_panic c t NilDeref)
+| T_UnsubAllClosed o ci rest chn :
+    th_pc th = PUnsubAllLoop o (ci :: rest) -> nth_error (c_chans c) ci = Some chn -> ch_closed chn = true ->
+    trans c t th (do_panic c t SendOnClosed)
+| T_UnsubAllClose o ci rest chn :
+    th_pc th = PUnsubAllLoop o (ci :: rest) -> nth_error (c_chans c) ci = Some chn -> ch_closed chn = false ->
+    trans c t th
+      (set_thread (log (set_chans c (upd ci (Chan (ch_buf chn) (ch_cap chn) true) (c_chans c))) [EClose t o ci])
+                  t (with_pc th (PUnsubAllLoop o rest)))
+| T_UnsubAllEnd o ob :
+    th_pc th = PUnsubAllLoop o [] -> nth_error (c_objs c) o = Some ob ->
+    trans c t th (set_thread (set_obj c o (set_wr (set_subs ob []) None)) t (returns th RNil)).
+
+Lemma step_send_trans c t th ch k p timeout cb pc_sent pc_cb c' :
+  step_send c t th ch k p timeout cb pc_sent pc_cb = Some c' ->
+  send_trans c t th k p timeout cb pc_sent pc_cb c'.
+Proof.
+  unfold step_send, try_send. intro H.
+  destruct (nth_error (c_chans c) (p_sub p)) as [chn|] eqn:Hc; [|discriminate].
+  destruct ch as [| |r].
+  - destruct (ch_closed chn) eqn:Hcl.
+    + injection H as <-. eapply S_Panic; eauto.
+    + destruct (length (ch_buf chn) <? ch_cap chn) eqn:Hlt; [|discriminate].
+      injection H as <-. apply Nat.ltb_lt in Hlt. eapply S_Buf; eauto.
+  - destruct (0 <? timeout)%Z eqn:Hto; [|discriminate]. apply Z.ltb_lt in Hto.
+    destruct cb; injection H as <-; [apply S_TimeoutCb|apply S_TimeoutNoCb]; auto.
+  - destruct (ch_closed chn) eqn:Hcl.
+    + injection H as <-. eapply S_Panic; eauto.
+    + destruct (ch_cap chn =? 0) eqn:Hcap; [|discriminate]. apply Nat.eqb_eq in Hcap.
+      destruct (nth_error (c_threads c) r) as [thr|] eqn:Hr; [|discriminate].
+      destruct (ocid_eqb (recv_target thr) (p_sub p)) eqn:Ht; [|discriminate].
+      injection H as <-. eapply S_To; eauto.
+      unfold ocid_eqb in Ht. destruct (recv_target thr); [|discriminate]. apply Nat.eqb_eq in Ht. congruence.
+Qed.
+
+Lemma step_recv_trans c t th ci c' :
+  recv_target th = Some ci -> step_recv c t th ci = Some c' -> trans c t th c'.
+Proof.
+  unfold step_recv. intros Hr H.
+  destruct (nth_error (c_chans c) ci) as [chn|] eqn:Hc; [|discriminate].
+  destruct (ch_buf chn) as [|v buf'] eqn:Hb.
+  - destruct (ch_closed chn) eqn:Hcl; [|discriminate]. injection H as <-. eapply T_RecvClosed; eauto.
+  - injection H as <-. eapply T_RecvVal; eauto.
+Qed.
+
+Lemma step_sub_start_trans c t th rest l o size ob c' :
+  starts th (call_of l) rest -> (th_pc th = PIdle -> th_prog th = call_of l :: rest) ->
+  (l = LSub o /\ size = o_defbuf ob \/ l = LSubBuf o size) ->
+  nth_error (c_objs c) o = Some ob ->
+  step_sub_start c t th rest l o size = Some c' -> trans c t th c'.
+Proof.
+  intros Hs Hidle Hl Ho H. unfold step_sub_start in H. rewrite Ho in H.
+  destruct (lock_free t ob) eqn:Hf.
+  - destruct (size <? 0)%Z eqn:Hsz.
+    + injection H as <-. apply Z.ltb_lt in Hsz. eapply T_SubPanic; eauto.
+    + injection H as <-. apply Z.ltb_ge in Hsz. eapply T_SubStart; eauto.
+  - unfold announce in H. destruct (th_pc th) eqn:Hpc; try discriminate.
+    destruct (can_announce ob) eqn:Ha; [|discriminate]. injection H as <-.
+    assert (lock_target l = o) as <- by (destruct Hl as [[-> _]| ->]; reflexivity).
+    eapply T_Announce; eauto.
+Qed.
+
+Lemma step_call_trans c t th cl rest c' :
+  starts th cl rest -> (th_pc th = PIdle -> th_prog th = cl :: rest) ->
+  step_call c t th cl rest = Some c' -> trans c t th c'.
+Proof.
+  intros Hs Hidle H. destruct cl as [w o ev|w o evs|o sub|o|o size|o [sub|]|o|ci|ci]; cbn [step_call] in H.
+  - unfold step_pub_start in H. destruct (nth_error (c_objs c) o) as [ob|] eqn:Ho; [|discriminate].
+    destruct (rlock_free ob) eqn:Hf; [|discriminate]. injection H as <-.
+    eapply (T_PubStart c t th _ rest false w o [ev] ob); eauto.
+  - unfold step_pub_start in H. destruct (nth_error (c_objs c) o) as [ob|] eqn:Ho; [|discriminate].
+    destruct (rlock_free ob) eqn:Hf; [|discriminate]. injection H as <-.
+    eapply (T_PubStart c t th _ rest true w o evs ob); eauto.
+  - destruct (nth_error (c_objs c) o) as [ob|] eqn:Ho; [|discriminate].
+    destruct (rlock_free ob) eqn:Hf; [|discriminate]. injection H as <-.
+    eapply T_WithOnlyStart; eauto.
+  - destruct (nth_error (c_objs c) o) as [ob|] eqn:Ho; [|discriminate].
+    eapply (step_sub_start_trans c t th rest (LSub o)); eauto.
+  - destruct (nth_error (c_objs c) o) as [ob|] eqn:Ho.
+    + eapply (step_sub_start_trans c t th rest (LSubBuf o size)); eauto.
+    + unfold step_sub_start in H. rewrite Ho in H. discriminate.
+  - destruct (nth_error (c_objs c) o) as [ob|] eqn:Ho; [|discriminate].
+    destruct (lock_free t ob) eqn:Hf.
+    + injection H as <-. eapply T_UnsubStart; eauto.
+    + unfold announce in H. destruct (th_pc th) eqn:Hpc; try discriminate.
+      destruct (can_announce ob) eqn:Ha; [|discriminate]. injection H as <-.
+      eapply (T_Announce c t th (LUnsub o sub)); eauto.
+  - injection H as <-. eapply T_UnsubNil; eauto.
+  - destruct (nth_error (c_objs c) o) as [ob|] eqn:Ho; [|discriminate].
+    destruct (lock_free t ob) eqn:Hf.
+    + injection H as <-. eapply T_UnsubAllStart; eauto.
+    + unfold announce in H. destruct (th_pc th) eqn:Hpc; try discriminate.
+      destruct (can_announce ob) eqn:Ha; [|discriminate]. injection H as <-.
+      eapply (T_Announce c t th (LUnsubAll o)); eauto.
+  - eapply step_recv_trans; eauto. unfold recv_target.
+    destruct Hs as [[Hpc Hpr]|(l & _ & E & _)]; [rewrite Hpc, Hpr; reflexivity|destruct l; discriminate].
+  - eapply step_recv_trans; eauto. unfold recv_target.
+    destruct Hs as [[Hpc Hpr]|(l & _ & E & _)]; [rewrite Hpc, Hpr; reflexivity|destruct l; discriminate].
+Qed.
+
+Lemma step_trans c t ch c' :
+  step c t ch = Some c' ->
+  c_panic c = None /\ exists th, nth_error (c_threads c) t = Some th /\ trans c t th c'.
+Proof.
+  unfold step. destruct (c_panic c) eqn:Hp; [discriminate|].
+  destruct (nth_error (c_threads c) t) as [th|] eqn:Ht; [|discriminate].
+  intro H. split; auto. exists th. split; auto.
+  unfold step_thread in H. destruct (th_pc th) eqn:Hpc.
+  - destruct (th_prog th) as [|cl rest] eqn:Hpr; [discriminate|].
+    eapply step_call_trans; eauto. left; auto.
+  - eapply step_call_trans; [right; exists l; auto | intro F; rewrite Hpc in F; discriminate | exact H].
+  - injection H as <-. eapply T_Add; eauto.
+  - destruct ps as [|p ps].
+    + destruct (nth_error (c_objs c) o) as [ob|] eqn:Ho; [|discriminate].
+      destruct (snd (k_var k)) eqn:Hw; injection H as <-.
+      * eapply T_LoopEndRet; eauto. congruence.
+      * eapply T_LoopEndWait; eauto.
+      * eapply T_LoopEndRet; eauto. congruence.
+    + destruct (nth_error (c_objs c) o) as [ob|] eqn:Ho; [|discriminate].
+      destruct (snd (k_var k)) eqn:Hw.
+      * injection H as <-. pose proof (T_Spawn c t th k o p ps ob Hpc Ho) as T. rewrite Hw in T. apply T. discriminate.
+      * injection H as <-. pose proof (T_Spawn c t th k o p ps ob Hpc Ho) as T. rewrite Hw in T. apply T. discriminate.
+      * eapply T_SyncSend; eauto. eapply step_send_trans; eauto.
+  - injection H as <-. eapply T_SyncCb; eauto.
+  - destruct (c_wg c (k_tid k) (k_n k) =? 0) eqn:Hw; [|discriminate]. injection H as <-.
+    apply Nat.eqb_eq in Hw. eapply T_WaitRet; eauto.
+  - eapply T_GoSend; eauto. eapply step_send_trans; eauto.
+  - injection H as <-. eapply T_GoCb; eauto.
+  - destruct (c_wg c (k_tid k) (k_n k)) as [|m] eqn:Hw; injection H as <-.
+    + eapply T_GoDonePanic; eauto.
+    + eapply T_GoDone; eauto.
+  - discriminate.
+  - destruct (nth_error (c_objs c) o) as [ob|] eqn:Ho; [|discriminate]. injection H as <-.
+    pose proof (T_WithOnlyU c t th o clone ob Hpc Ho) as T. exact T.
+  - destruct (nth_error (c_objs c) o) as [ob|] eqn:Ho; [|discriminate]. injection H as <-.
+    eapply T_SubU; eauto.
+  - destruct (nth_error (c_objs c) o) as [ob|] eqn:Ho; [|discriminate].
+    destruct (nth_error (o_subs ob) idx) as [ci|] eqn:Hi.
+    + unfold close_chan in H. destruct (nth_error (c_chans c) ci) as [chn|] eqn:Hc.
+      * destruct (ch_closed chn) eqn:Hcl.
+        -- cbn in H. injection H as <-. eapply T_UnsubCloseClosed; eauto.
+        -- cbn in H. rewrite Hp in H. injection H as <-. eapply T_UnsubCloseOk; eauto.
+      * cbn in H. injection H as <-. eapply T_UnsubCloseNil; eauto.
+    + injection H as <-. eapply T_UnsubCloseIdx; eauto.
+  - destruct (nth_error (c_objs c) o) as [ob|] eqn:Ho; [|discriminate]. injection H as <-.
+    eapply T_UnsubU; eauto.
+  - destruct rest as [|ci rest].
+    + destruct (nth_error (c_objs c) o) as [ob|] eqn:Ho; [|discriminate]. injection H as <-.
+      eapply T_UnsubAllEnd; eauto.
+    + unfold close_chan in H. destruct (nth_error (c_chans c) ci) as [chn|] eqn:Hc.
+      * destruct (ch_closed chn) eqn:Hcl.
+        -- cbn in H. injection H as <-. eapply T_UnsubAllClosed; eauto.
+        -- cbn in H. rewrite Hp in H. injection H as <-. eapply T_UnsubAllClose; eauto.
+      * cbn in H. injection H as <-. eapply T_UnsubAllNil; eauto.
+  - eapply step_recv_trans; eauto. unfold recv_target. rewrite Hpc. reflexivity.
+Qed.
+
+(* ------------------------------------------------------------------ *)
+(* Tactics for invariant proofs                                         *)
+(* ------------------------------------------------------------------ *)
+
+Lemma In_remove_one_other t t' l : t <> t' -> In t l -> In t (remove_one t' l).
+Proof.
+  intros N. induction l as [|x l IH]; simpl; auto. intros [->|H].
+  - destruct (Nat.eqb_spec t t'); [congruence|]. left; reflexivity.
+  - destruct (x =? t'); auto. right; auto.
+Qed.
+
+(* case analysis on a lookup in an updated / extended list *)
+Ltac lookup H :=
+  let N := fresh "N" in
+  let L := fresh "L" in
+  match type of H with
+  | nth_error (upd _ _ _ ++ [_]) _ = Some _ =>
+      apply nth_error_app_some in H as [H|[-> ->]]; [lookup H|]
+  | nth_error (_ ++ [_]) _ = Some _ =>
+      apply nth_error_app_some in H as [H|[-> ->]]
+  | nth_error (upd _ _ _) _ = Some _ =>
+      apply nth_error_upd in H as [(<- & -> & L)|(N & H)]; [|try lookup H]
+  | _ => idtac
+  end.
+
+Ltac inv_send S := destruct S as [chn Hch Hcl|chn Hch Hcl Hlt|chn r thr Hch Hcl Hcap Hr Hrt|Hto Hcb|Hto Hcb].
+
+(* ------------------------------------------------------------------ *)
+(* Lock invariant                                                       *)
+(* ------------------------------------------------------------------ *)
+
+Definition holds_read (p : pc) (o : oid) : Prop :=
+  match p with
+  | PAdd _ o' _ _ | PLoop _ o' _ | PSyncCb _ o' _ _ | PWithOnlyU o' _ => o' = o
+  | _ => False
+  end.
+Definition holds_write (p : pc) (o : oid) : Prop :=
+  match p with
+  | PSubU o' _ | PUnsubClose o' _ | PUnsubU o' _ | PUnsubAllLoop o' _ => o' = o
+  | _ => False
+  end.
+
+Lemma rlock_free_inv ob : rlock_free ob = true -> o_wr ob = None /\ o_ww ob = None.
+Proof. unfold rlock_free. destruct (o_wr ob), (o_ww ob); try discriminate; auto. Qed.
+
+Lemma deliver_pc_cases thr v :
+  th_pc (deliver thr v) = th_pc thr \/ th_pc (deliver thr v) = PIdle \/
+  exists ci acc, th_pc (deliver thr v) = PRange ci acc.
+Proof.
+  unfold deliver. destruct (th_pc thr) eqn:E; cbn; auto.
+  - destruct (th_prog thr) as [|[] ?]; cbn; eauto.
+  - eauto.
+Qed.
+Lemma deliver_closed_pc_cases thr :
+  th_pc (deliver_closed thr) = th_pc thr \/ th_pc (deliver_closed thr) = PIdle.
+Proof.
+  unfold deliver_closed. destruct (th_pc thr) eqn:E; cbn; auto.
+  destruct (th_prog thr) as [|[] ?]; cbn; eauto.
+Qed.
+
+Lemma can_announce_inv ob : can_announce ob = true -> o_wr ob = None /\ o_ww ob = None /\ o_rd ob <> [].
+Proof. unfold can_announce. destruct (o_rd ob), (o_wr ob), (o_ww ob); try discriminate. intuition discriminate. Qed.
+
+Definition lock_inv (c : config) : Prop :=
+  (forall o ob, nth_error (c_objs c) o = Some ob ->
+     (o_wr ob <> None -> o_rd ob = [] /\ o_ww ob = None)) /\
+  (forall t th o ob, nth_error (c_threads c) t = Some th -> nth_error (c_objs c) o = Some ob ->
+     holds_read (th_pc th) o -> In t (o_rd ob)) /\
+  (forall t th o ob, nth_error (c_threads c) t = Some th -> nth_error (c_objs c) o = Some ob ->
+     holds_write (th_pc th) o -> o_wr ob = Some t) /\
+  (forall t th o, nth_error (c_threads c) t = Some th -> holds_read (th_pc th) o \/ holds_write (th_pc th) o ->
+     o < length (c_objs c)) /\
+  (forall t th o clone, nth_error (c_threads c) t = Some th -> th_pc th = PWithOnlyU o clone ->
+     o_wr clone = None).
+
+Ltac prep :=
+  repeat match goal with
+  | H : rlock_free _ = true |- _ => apply rlock_free_inv in H as [? ?]
+  | H : lock_free _ _ = true |- _ => apply lock_free_inv in H as (? & ? & ?)
+  | H : can_announce _ = true |- _ => apply can_announce_inv in H as (? & ? & ?)
+  end;
+  repeat match goal with
+  | H : nth_error (c_objs ?c) ?o = Some _ |- _ =>
+      lazymatch goal with
+      | _ : o < length (c_objs c) |- _ => fail
+      | _ => pose proof (nth_error_some_lt _ _ _ H)
+      end
+  end.
+Ltac pcfacts :=
+  repeat match goal with
+  | Hpc : th_pc ?th = PAdd _ ?o _ _ |- _ =>
+      lazymatch goal with _ : holds_read (th_pc th) o |- _ => fail | _ => assert (holds_read (th_pc th) o) by (rewrite Hpc; reflexivity) end
+  | Hpc : th_pc ?th = PLoop _ ?o _ |- _ =>
+      lazymatch goal with _ : holds_read (th_pc th) o |- _ => fail | _ => assert (holds_read (th_pc th) o) by (rewrite Hpc; reflexivity) end
+  | Hpc : th_pc ?th = PSyncCb _ ?o _ _ |- _ =>
+      lazymatch goal with _ : holds_read (th_pc th) o |- _ => fail | _ => assert (holds_read (th_pc th) o) by (rewrite Hpc; reflexivity) end
+  | Hpc : th_pc ?th = PWithOnlyU ?o _ |- _ =>
+      lazymatch goal with _ : holds_read (th_pc th) o |- _ => fail | _ => assert (holds_read (th_pc th) o) by (rewrite Hpc; reflexivity) end
+  | Hpc : th_pc ?th = PSubU ?o _ |- _ =>
+      lazymatch goal with _ : holds_write (th_pc th) o |- _ => fail | _ => assert (holds_write (th_pc th) o) by (rewrite Hpc; reflexivity) end
+  | Hpc : th_pc ?th = PUnsubClose ?o _ |- _ =>
+      lazymatch goal with _ : holds_write (th_pc th) o |- _ => fail | _ => assert (holds_write (th_pc th) o) by (rewrite Hpc; reflexivity) end
+  | Hpc : th_pc ?th = PUnsubU ?o _ |- _ =>
+      lazymatch goal with _ : holds_write (th_pc th) o |- _ => fail | _ => assert (holds_write (th_pc th) o) by (rewrite Hpc; reflexivity) end
+  | Hpc : th_pc ?th = PUnsubAllLoop ?o _ |- _ =>
+      lazymatch goal with _ : holds_write (th_pc th) o |- _ => fail | _ => assert (holds_write (th_pc th) o) by (rewrite Hpc; reflexivity) end
+  end.
+Ltac sat :=
+  repeat match goal with
+  | H : context [th_pc (deliver ?thr ?v)] |- _ =>
+      let E := fresh "E" in destruct (deliver_pc_cases thr v) as [E|[E|(? & ? & E)]]; rewrite E in *; clear E
+  | H : context [th_pc (deliver_closed ?thr)] |- _ =>
+      let E := fresh "E" in destruct (deliver_closed_pc_cases thr) as [E|E]; rewrite E in *; clear E
+  | H : _ \/ _ |- _ => destruct H
+  end;
+  repeat match goal with
+  | L : forall t th o ob, nth_error (c_threads ?c) t = Some th -> nth_error (c_objs ?c) o = Some ob -> holds_write (th_pc th) o -> _,
+    Ht : nth_error (c_threads ?c) ?t = Some ?th, Ho : nth_error (c_objs ?c) ?o = Some ?ob, Hh : holds_write (th_pc ?th) ?o |- _ =>
+      lazymatch goal with
+      | _ : o_wr ob = Some t |- _ => fail
+      | _ => pose proof (L t th o ob Ht Ho Hh)
+      end
+  | L : forall t th o ob, nth_error (c_threads ?c) t = Some th -> nth_error (c_objs ?c) o = Some ob -> holds_read (th_pc th) o -> _,
+    Ht : nth_error (c_threads ?c) ?t = Some ?th, Ho : nth_error (c_objs ?c) ?o = Some ?ob, Hh : holds_read (th_pc ?th) ?o |- _ =>
+      lazymatch goal with
+      | _ : In t (o_rd ob) |- _ => fail
+      | _ => pose proof (L t th o ob Ht Ho Hh)
+      end
+  | L : forall t th o, nth_error (c_threads ?c) t = Some th -> _ -> o < length (c_objs ?c),
+    Ht : nth_error (c_threads ?c) ?t = Some ?th, Hh : holds_write (th_pc ?th) ?o |- _ =>
+      lazymatch goal with
+      | _ : o < length (c_objs c) |- _ => fail
+      | _ => pose proof (L t th o Ht (or_intror Hh))
+      end
+  | L : forall t th o, nth_error (c_threads ?c) t = Some th -> _ -> o < length (c_objs ?c),
+    Ht : nth_error (c_threads ?c) ?t = Some ?th, Hh : holds_read (th_pc ?th) ?o |- _ =>
+      lazymatch goal with
+      | _ : o < length (c_objs c) |- _ => fail
+      | _ => pose proof (L t th o Ht (or_introl Hh))
+      end
+  | L : forall t th o clone, nth_error (c_threads ?c) t = Some th -> th_pc th = PWithOnlyU o clone -> _,
+    Ht : nth_error (c_threads ?c) ?t = Some ?th, Hh : th_pc ?th = PWithOnlyU ?o ?cl |- _ =>
+      lazymatch goal with
+      | _ : o_wr cl = None |- _ => fail
+      | _ => pose proof (L t th o cl Ht Hh)
+      end
+  | L : forall o ob, nth_error (c_objs ?c) o = Some ob -> o_wr ob <> None -> _,
+    Ho : nth_error (c_objs ?c) ?o = Some ?ob, Hw : o_wr ?ob <> None |- _ =>
+      lazymatch goal with
+      | _ : o_rd ob = [] /\ _ |- _ => fail
+      | _ => pose proof (L o ob Ho Hw)
+      end
+  end.
+Ltac fin :=
+  try match goal with H : context [pub_pc _ _ _ ?w _ _] |- _ => destruct w end;
+  try match goal with H : context [after_send ?w _ _] |- _ => destruct w end;
+  try match goal with H : context [if ?b then PUnsubU _ _ else _] |- _ => destruct b end;
+  cbn [th_pc th_prog th_rets o_rd o_wr o_ww o_subs set_rd set_wr set_ww set_subs holds_read holds_write pub_pc after_send In] in *;
+  intros; sat; try subst;
+  try match goal with H : PWithOnlyU _ _ = PWithOnlyU _ _ |- _ => injection H as ? ?; subst end;
+  rewrite ?upd_length in *;
+  cbn [th_pc th_prog th_rets o_rd o_wr o_ww o_subs set_rd set_wr set_ww set_subs holds_read holds_write pub_pc after_send In] in *;
+  first [ contradiction | congruence | lia | solve [eauto] | solve [intuition (eauto; congruence)]
+        | solve [eauto using In_remove_one_other]
+        | match goal with H : ?x = [] /\ _, H' : In _ ?x |- _ => destruct H as [H _]; rewrite H in H'; destruct H' end
+        | match goal with H : ?x = [], H' : In _ ?x |- _ => rewrite H in H'; destruct H' end ].
+
+Lemma lock_inv_step c t th c' :
+  c_panic c = None -> nth_error (c_threads c) t = Some th -> trans c t th c' -> lock_inv c -> lock_inv c'.
+Proof.
+  intros Hp Ht T (L1 & L2 & L3 & L4 & L5).
+  assert (Lt : t < length (c_threads c)) by (eapply nth_error_some_lt; eauto).
+  destruct T; try match goal with S : send_trans _ _ _ _ _ _ _ _ _ _ |- _ => inv_send S end; unfold lock_inv; norm; prep; pcfacts.
+  all: split; [|split; [|split; [|split]]].
+  all: try (intros xo xob Hxo; lookup Hxo; fin; fail).
+  all: try (intros xt xth xo xob Hxt Hxo Hxh; lookup Hxt; lookup Hxo; fin; fail).
+  all: try (intros xt xth xo Hxt Hxh; lookup Hxt; rewrite ?app_length, ?upd_length; fin; fail).
+  all: try (intros xt xth xo xcl Hxt Hxh; lookup Hxt; fin; fail).
+Qed.
+Lemma step_lift (P : config -> Prop) :
+  (forall c t th c', c_panic c = None -> nth_error (c_threads c) t = Some th -> trans c t th c' -> P c -> P c') ->
+  forall c t ch c', P c -> step c t ch = Some c' -> P c'.
+Proof. intros H c t ch c' Hc Hs. apply step_trans in Hs as (Hp & th & Ht & T). eauto. Qed.
+
+Lemma run_lift (P : config -> Prop) :
+  (forall c t th c', c_panic c = None -> nth_error (c_threads c) t = Some th -> trans c t th c' -> P c -> P c') ->
+  forall s c, P c -> P (run c s).
+Proof. intros H. apply run_inv. intros c t ch c' Hc Hs. eapply step_lift; eauto. Qed.
+
+Lemma init_threads_pc timeout cb defbuf progs t th :
+  nth_error (c_threads (init timeout cb defbuf progs)) t = Some th -> th_pc th = PIdle /\ th_rets th = [].
+Proof.
+  cbn. intro H. apply nth_error_In in H. apply in_map_iff in H as (p & <- & _). auto.
+Qed.
+
+Lemma lock_inv_init timeout cb defbuf progs : lock_inv (init timeout cb defbuf progs).
+Proof.
+  unfold lock_inv. repeat split.
+  - cbn in H. destruct o as [|[|o]]; try discriminate. injection H as <-. cbn in H0. congruence.
+  - cbn in H. destruct o as [|[|o]]; try discriminate. injection H as <-. cbn in H0. congruence.
+  - intros t th o ob Ht _ Hh. apply init_threads_pc in Ht as [E _]. rewrite E in Hh. destruct Hh.
+  - intros t th o ob Ht _ Hh. apply init_threads_pc in Ht as [E _]. rewrite E in Hh. destruct Hh.
+  - intros t th o Ht [Hh|Hh]; apply init_threads_pc in Ht as [E _]; rewrite E in Hh; destruct Hh.
+  - intros t th o cl Ht Hh. apply init_threads_pc in Ht as [E _]. congruence.
+Qed.
+
+Lemma lock_inv_run timeout cb defbuf progs s : lock_inv (run (init timeout cb defbuf progs) s).
+Proof. apply run_lift; [exact lock_inv_step|apply lock_inv_init]. Qed.
+
+(* consequences *)
+Lemma reader_no_writer c t th o ob :
+  lock_inv c -> nth_error (c_threads c) t = Some th -> nth_error (c_objs c) o = Some ob ->
+  holds_read (th_pc th) o -> o_wr ob = None /\ In t (o_rd ob).
+Proof.
+  intros (L1 & L2 & _) Ht Ho Hh. pose proof (L2 t th o ob Ht Ho Hh) as Hin. split; auto.
+  destruct (o_wr ob) eqn:E; auto. destruct (L1 o ob Ho) as [R _]; [congruence|]. rewrite R in Hin. destruct Hin.
+Qed.
+Lemma writer_excl c t th o ob :
+  lock_inv c -> nth_error (c_threads c) t = Some th -> nth_error (c_objs c) o = Some ob ->
+  holds_write (th_pc th) o -> o_wr ob = Some t /\ o_rd ob = [].
+Proof.
+  intros (L1 & _ & L3 & _) Ht Ho Hh. pose proof (L3 t th o ob Ht Ho Hh) as Hw. split; auto.
+  apply (L1 o ob Ho). congruence.
+Qed.
+
+(* ------------------------------------------------------------------ *)
+(* Structural well-formedness                                           *)
+(* ------------------------------------------------------------------ *)
+Definition wf_inv (c : config) : Prop :=
+  (forall o ob ci, nth_error (c_objs c) o = Some ob -> In ci (o_subs ob) -> ci < length (c_chans c)) /\
+  (forall o ob, nth_error (c_objs c) o = Some ob -> NoDup (o_subs ob)) /\
+  (forall t th o clone, nth_error (c_threads c) t = Some th -> th_pc th = PWithOnlyU o clone ->
+     NoDup (o_subs clone) /\ forall ci, In ci (o_subs clone) -> ci < length (c_chans c)).
+
+Lemma in_splice {A} (l : list A) i x : In x (firstn i l ++ skipn (S i) l) -> In x l.
+Proof.
+  intro H. apply in_app_or in H as [H|H].
+  - rewrite <- (firstn_skipn i l). apply in_or_app. left; exact H.
+  - rewrite <- (firstn_skipn (S i) l). apply in_or_app. right; exact H.
+Qed.
+Lemma nodup_splice {A} (l : list A) i : NoDup l -> NoDup (firstn i l ++ skipn (S i) l).
+Proof.
+  revert i; induction l as [|x l IH]; intros i ND.
+  - rewrite firstn_nil, skipn_nil. constructor.
+  - inversion ND; subst. destruct i as [|i].
+    + rewrite firstn_O, skipn_cons, skipn_O. assumption.
+    + rewrite firstn_cons, skipn_cons. cbn [app]. constructor; auto.
+      intro F. apply in_splice in F. contradiction.
+Qed.
+Lemma nodup_withonly sub subs : NoDup subs -> NoDup (withonly_loop sub subs).
+Proof. rewrite withonly_loop_filter. apply NoDup_filter. Qed.
+Lemma nodup_snoc (l : list nat) n : NoDup l -> (forall x, In x l -> x < n) -> NoDup (l ++ [n]).
+Proof.
+  intros ND B. induction l as [|x l IH]; cbn; [constructor; auto; constructor|].
+  inversion ND; subst. constructor.
+  - intro F. apply in_app_or in F as [F|[F|[]]]; [contradiction|]. specialize (B x (or_introl eq_refl)). lia.
+  - apply IH; auto. intros y Hy. apply B. right; auto.
+Qed.
+
+Ltac fin_wf :=
+  cbn [th_pc th_prog th_rets o_rd o_wr o_ww o_subs set_rd set_wr set_ww set_subs pub_pc after_send In] in *;
+  intros; try subst;
+  try match goal with H : context [th_pc (deliver ?thr ?v)] |- _ =>
+      let E := fresh "E" in destruct (deliver_pc_cases thr v) as [E|[E|(? & ? & E)]]; rewrite E in *; clear E end;
+  try match goal with H : context [th_pc (deliver_closed ?thr)] |- _ =>
+      let E := fresh "E" in destruct (deliver_closed_pc_cases thr) as [E|E]; rewrite E in *; clear E end;
+  try match goal with H : context [pub_pc _ _ _ ?w _ _] |- _ => destruct w end;
+  try match goal with H : context [after_send ?w _ _] |- _ => destruct w end;
+  try match goal with H : context [if ?b then PUnsubU _ _ else _] |- _ => destruct b end;
+  cbn [th_pc th_prog th_rets o_rd o_wr o_ww o_subs set_rd set_wr set_ww set_subs pub_pc after_send In] in *;
+  rewrite ?app_length, ?upd_length in *; cbn [length] in *;
+  try match goal with H : PWithOnlyU _ _ = PWithOnlyU _ _ |- _ => injection H as ? ?; subst end;
+  cbn [o_subs] in *;
+  first [ contradiction | congruence | lia | solve [eauto] | solve [constructor] | solve [eauto using nodup_splice, nodup_withonly]
+        | match goal with H : In _ (firstn _ _ ++ skipn _ _) |- _ => apply in_splice in H end; solve [eauto]
+        | match goal with H : In _ (_ ++ [_]) |- _ => apply in_app_or in H as [H|[H|[]]] end;
+          solve [ lia | match goal with W : forall o ob ci, _ -> _ -> ci < _, Ho : nth_error _ _ = Some ?ob, Hi : In ?ci (o_subs ?ob) |- _ =>
+                    pose proof (W _ _ _ Ho Hi); lia end ]
+        | match goal with W : forall o ob ci, _ -> _ -> ci < _, Ho : nth_error _ _ = Some ?ob, Hi : In ?ci (o_subs ?ob) |- _ =>
+                    pose proof (W _ _ _ Ho Hi); lia end
+        | solve [apply nodup_snoc; eauto]
+        | solve [split; [apply nodup_withonly; eauto | intros ? Hq; apply withonly_loop_in in Hq as [_ Hq]; eauto]]
+        | solve [match goal with W : forall t th o clone, _ -> _ -> NoDup _ /\ _, Ht : nth_error _ _ = Some ?th, Hc : th_pc ?th = PWithOnlyU _ _ |- _ =>
+                   destruct (W _ _ _ _ Ht Hc) as [? ?]; eauto end]
+        | solve [match goal with W : forall t th o clone, _ -> _ -> NoDup _ /\ _, Ht : nth_error _ _ = Some ?th, Hc : th_pc ?th = PWithOnlyU _ _ |- _ =>
+                   destruct (W _ _ _ _ Ht Hc) as [? Hb]; split; auto; intros ? Hq; specialize (Hb _ Hq); lia end] ].
+
+Lemma wf_inv_step c t th c' :
+  c_panic c = None -> nth_error (c_threads c) t = Some th -> trans c t th c' -> wf_inv c -> wf_inv c'.
+Proof.
+  intros Hp Ht T (W1 & W2 & W3).
+  assert (Lt : t < length (c_threads c)) by (eapply nth_error_some_lt; eauto).
+  destruct T; try match goal with S : send_trans _ _ _ _ _ _ _ _ _ _ |- _ => inv_send S end; unfold wf_inv; norm; prep.
+  all: split; [|split].
+  all: try (intros xo xob xci Hxo Hxi; lookup Hxo; fin_wf; fail).
+  all: try (intros xo xob Hxo; lookup Hxo; fin_wf; fail).
+  all: try (intros xt xth xo xcl Hxt Hxh; lookup Hxt; fin_wf; fail).
+Qed.
+
+Lemma wf_inv_init timeout cb defbuf progs : wf_inv (init timeout cb defbuf progs).
+Proof.
+  unfold wf_inv. repeat split.
+  - intros o ob ci H Hi. cbn in H. destruct o as [|[|o]]; try discriminate. injection H as <-. destruct Hi.
+  - intros o ob H. cbn in H. destruct o as [|[|o]]; try discriminate. injection H as <-. constructor.
+  - apply init_threads_pc in H as [E _]. congruence.
+  - apply init_threads_pc in H as [E _]. congruence.
+Qed.
+
+Lemma wf_inv_run timeout cb defbuf progs s : wf_inv (run (init timeout cb defbuf progs) s).
+Proof. apply run_lift; [exact wf_inv_step|apply wf_inv_init]. Qed.
+(* ------------------------------------------------------------------ *)
+(* WaitGroup accounting                                                 *)
+(* ------------------------------------------------------------------ *)
+Definition total {A} (f : A -> nat) (l : list A) : nat := fold_right (fun x acc => f x + acc) 0 l.
+
+Lemma total_app {A} (f : A -> nat) l x : total f (l ++ [x]) = total f l + f x.
+Proof. unfold total. induction l as [|y l IH]; cbn; [lia|]. rewrite IH. lia. Qed.
+
+Lemma total_upd {A} (f : A -> nat) l i x y :
+  nth_error l i = Some x -> total f (upd i y l) + f x = total f l + f y.
+Proof.
+  unfold total. revert i; induction l as [|z l IH]; intros [|i] H; cbn in *; try discriminate.
+  - injection H as ->. lia.
+  - specialize (IH i H). lia.
+Qed.
+
+Lemma total_upd2 {A} (f : A -> nat) l i j x y x' y' :
+  i <> j -> nth_error l i = Some x -> nth_error l j = Some y ->
+  total f (upd i x' (upd j y' l)) + f x + f y = total f l + f x' + f y'.
+Proof.
+  intros N Hi Hj.
+  assert (Hi' : nth_error (upd j y' l) i = Some x) by (rewrite nth_error_upd_neq; auto).
+  pose proof (total_upd f _ i x x' Hi'). pose proof (total_upd f l j y y' Hj). lia.
+Qed.
+
+Lemma total_zero {A} (f : A -> nat) l : total f l = 0 -> forall x, In x l -> f x = 0.
+Proof. unfold total. induction l as [|y l IH]; cbn; intros H x []; subst; [lia|apply IH; auto; lia]. Qed.
+
+(* what a thread still owes to the WaitGroup of the n-th call of thread t *)
+Definition owed_pc (t n : nat) (p : pc) : nat :=
+  match p with
+  | PLoop k o ps => match snd (k_var k) with
+                    | Wait => if wg_key_eqb (k_tid k) (k_n k) t n then length ps else 0
+                    | _ => 0
+                    end
+  | PGoSend k p _ _ true => if wg_key_eqb (k_tid k) (k_n k) t n then 1 else 0
+  | PGoCb k p true => if wg_key_eqb (k_tid k) (k_n k) t n then 1 else 0
+  | PGoDone k p => if wg_key_eqb (k_tid k) (k_n k) t n then 1 else 0
+  | _ => 0
+  end.
+Definition owed (t n : nat) (th : thread) : nat := owed_pc t n (th_pc th).
+
+Definition wg_inv (c : config) : Prop :=
+  (forall t n, total (owed t n) (c_threads c) <= c_wg c t n) /\
+  (forall t th k o n ps, nth_error (c_threads c) t = Some th -> th_pc th = PAdd k o n ps ->
+     n = length ps /\ snd (k_var k) = Wait) /\
+  (forall t th k o p ps, nth_error (c_threads c) t = Some th -> th_pc th = PSyncCb k o p ps ->
+     snd (k_var k) = Sync).
+
+Lemma owed_recv t n thr ci v : recv_target thr = Some ci -> owed t n thr = 0 /\ owed t n (deliver thr v) = 0.
+Proof.
+  unfold recv_target, deliver, owed. destruct (th_pc thr) eqn:E; try discriminate; cbn.
+  - destruct (th_prog thr) as [|[] ?]; try discriminate; cbn; rewrite ?E; auto.
+  - auto.
+Qed.
+Lemma owed_recv_closed t n thr ci : recv_target thr = Some ci -> owed t n thr = 0 /\ owed t n (deliver_closed thr) = 0.
+Proof.
+  unfold recv_target, deliver_closed, owed. destruct (th_pc thr) eqn:E; try discriminate; cbn.
+  - destruct (th_prog thr) as [|[] ?]; try discriminate; cbn; rewrite ?E; auto.
+  - auto.
+Qed.
+Lemma starts_owed th cl rest t n : starts th cl rest -> owed t n th = 0.
+Proof. unfold owed. intros [[E _]|(l & E & _)]; rewrite E; reflexivity. Qed.
+Lemma wg_key_eqb_refl a b : wg_key_eqb a b a b = true.
+Proof. unfold wg_key_eqb. rewrite !Nat.eqb_refl. reflexivity. Qed.
+Lemma owed_pc_eq t n th p : th_pc th = p -> owed t n th = owed_pc t n p.
+Proof. intros <-. reflexivity. Qed.
+
+(* E : total f new + owed old = total f old + owed new: evaluate the owed terms *)
+Ltac owed_eval E :=
+  repeat match type of E with
+  | context [owed ?a ?b (deliver ?th ?v)] =>
+      match goal with Hr : recv_target th = Some _ |- _ =>
+        let X := fresh in destruct (owed_recv a b th _ v Hr) as [X X']; rewrite ?X, ?X' in E end
+  | context [owed ?a ?b (deliver_closed ?th)] =>
+      match goal with Hr : recv_target th = Some _ |- _ =>
+        let X := fresh in destruct (owed_recv_closed a b th _ Hr) as [X X']; rewrite ?X, ?X' in E end
+  | context [owed ?a ?b {| th_prog := ?p; th_pc := ?q; th_rets := ?r |}] =>
+      change (owed a b {| th_prog := p; th_pc := q; th_rets := r |}) with (owed_pc a b q) in E
+  | context [owed ?a ?b ?th] =>
+      match goal with
+      | Hpc : th_pc th = _ |- _ => rewrite (owed_pc_eq a b th _ Hpc) in E
+      | Hs : starts th _ _ |- _ => rewrite (starts_owed th _ _ a b Hs) in E
+      | Hr : recv_target th = Some _ |- _ => rewrite (proj1 (owed_recv a b th _ 0%Z Hr)) in E
+      end
+  end;
+  cbn [owed_pc snd pub_pc after_send] in E.
+
+Lemma wg_inv_step c t th c' :
+  c_panic c = None -> nth_error (c_threads c) t = Some th -> trans c t th c' -> wg_inv c -> wg_inv c'.
+Proof.
+  intros Hp Ht T (G1 & G2 & G3).
+  assert (Lt : t < length (c_threads c)) by (eapply nth_error_some_lt; eauto).
+  destruct T; try match goal with S : send_trans _ _ _ _ _ _ _ _ _ _ |- _ => inv_send S end; unfold wg_inv; norm.
+  all: split; [|split].
+  all: try (intros xt xth xk xo xn xps Hxt Hxh; lookup Hxt; fin_wf; fail).
+  all: try (intros xt xth xk xo xp xps Hxt Hxh; lookup Hxt; fin_wf; fail).
+  all: try (intros xt xn; specialize (G1 xt xn); exact G1).
+  all: try (intros xt xn; specialize (G1 xt xn);
+            match goal with |- context [total ?f (upd ?t ?th' ?l)] => pose proof (total_upd f l t th th' Ht) as E end;
+            owed_eval E; lia).
+  all: try (intros xt xn; specialize (G1 xt xn);
+            first
+            [ match goal with |- context [total ?f (upd ?t ?th' (upd ?r ?thr' ?l))] =>
+                assert (Nr : t <> r) by
+                  (intros <-; match goal with Hr : nth_error _ t = Some ?thr |- _ => rewrite Ht in Hr; injection Hr as <- end;
+                   match goal with Hrt : recv_target ?x = Some _, Hpc : th_pc ?x = _ |- _ => unfold recv_target in Hrt; rewrite Hpc in Hrt; discriminate end);
+                match goal with Hr : nth_error _ r = Some ?thr |- _ => pose proof (total_upd2 f l t r th thr th' thr' Nr Ht Hr) as E end
+              end
+            | match goal with |- context [total ?f (upd ?t ?th' ?l ++ [?new])] =>
+                rewrite total_app; pose proof (total_upd f l t th th' Ht) as E;
+                change (f new) with (owed_pc xt xn (th_pc new)); cbn [th_pc]
+              end
+            | match goal with |- context [total ?f (upd ?t ?th' ?l)] => pose proof (total_upd f l t th th' Ht) as E end ];
+            unfold pub_pc, after_send in *; owed_eval E; unfold wg_set; cbn [owed_pc];
+            repeat match goal with
+            | |- context [match ?w with Async => _ | Wait => _ | Sync => _ end] => destruct w eqn:?
+            | _ : context [match ?w with Async => _ | Wait => _ | Sync => _ end] |- _ => destruct w eqn:?
+            | _ : context [if ?b then _ else _] |- _ => destruct b eqn:?
+            | |- context [if ?b then _ else _] => destruct b eqn:?
+            end; cbn [owed_pc snd length k_var] in *;
+            try match goal with Hpc : th_pc _ = PAdd _ _ _ _ |- _ => destruct (G2 _ _ _ _ _ _ Ht Hpc) as [? ?] end;
+            try match goal with Hpc : th_pc _ = PSyncCb _ _ _ _ |- _ => pose proof (G3 _ _ _ _ _ _ Ht Hpc) end;
+            repeat match goal with
+            | Hk : wg_key_eqb _ _ _ _ = true |- _ =>
+                unfold wg_key_eqb in Hk; apply andb_true_iff in Hk as [Hk1 Hk2]; apply Nat.eqb_eq in Hk1, Hk2
+            end;
+            try subst; rewrite ?wg_key_eqb_refl in *; cbn [owed_pc snd length k_var] in *;
+            repeat match goal with
+            | _ : context [if ?b then _ else _] |- _ => destruct b eqn:?
+            | |- context [if ?b then _ else _] => destruct b eqn:?
+            end;
+            solve [congruence | lia]).
+  - intros xt xth xk xo xn xps Hxt Hxh. lookup Hxt; [|eauto].
+    cbn [th_pc] in Hxh. unfold pub_pc in Hxh. destruct w; try discriminate. injection Hxh as <- <- <- <-.
+    split; [|reflexivity]. unfold pub_ps. destruct sl; [rewrite pairs_slice_length|rewrite pairs_one_length]; reflexivity.
+Qed.
+
+Lemma total_all_zero {A} (f : A -> nat) l : (forall x, In x l -> f x = 0) -> total f l = 0.
+Proof.
+  unfold total. induction l as [|y l IH]; cbn; intro H; auto.
+  rewrite (H y (or_introl eq_refl)), IH; auto.
+Qed.
+
+Lemma wg_inv_init timeout cb defbuf progs : wg_inv (init timeout cb defbuf progs).
+Proof.
+  unfold wg_inv. repeat split.
+  - intros t n. rewrite total_all_zero; [cbn; lia|].
+    intros th Hin. apply In_nth_error in Hin as (i & Hi). apply init_threads_pc in Hi as [E _].
+    unfold owed. rewrite E. reflexivity.
+  - apply init_threads_pc in H as [E _]. congruence.
+  - apply init_threads_pc in H as [E _]. congruence.
+  - intros t th k o p ps H E'. apply init_threads_pc in H as [E _]. congruence.
+Qed.
+
+Lemma wg_inv_run timeout cb defbuf progs s : wg_inv (run (init timeout cb defbuf progs) s).
+Proof. apply run_lift; [exact wg_inv_step|apply wg_inv_init]. Qed.
+(* ------------------------------------------------------------------ *)
+(* Listed channels are open; no panic                                   *)
+(* ------------------------------------------------------------------ *)
+Definition pc_pairs (p : pc) : list pair :=
+  match p with PAdd _ _ _ ps | PLoop _ _ ps | PSyncCb _ _ _ ps => ps | _ => [] end.
+
+Definition wopen (chs : list chan) (ob : psobj) (p : pc) : Prop :=
+  match p with
+  | PSubU _ _ | PUnsubU _ _ => forall ci, In ci (o_subs ob) -> is_open chs ci
+  | PUnsubClose _ idx => (forall ci, In ci (o_subs ob) -> is_open chs ci) /\ idx < length (o_subs ob)
+  | PUnsubAllLoop _ rest => (forall ci, In ci rest -> is_open chs ci) /\ NoDup rest /\ incl rest (o_subs ob)
+  | _ => True
+  end.
+
+Definition call_ok (cl : call) : Prop := match cl with CSubBuf _ size => (0 <= size)%Z | _ => True end.
+
+Definition open_inv (c : config) : Prop :=
+  (forall o ob ci, nth_error (c_objs c) o = Some ob -> o_wr ob = None -> In ci (o_subs ob) -> is_open (c_chans c) ci) /\
+  (forall t th o ob, nth_error (c_threads c) t = Some th -> nth_error (c_objs c) o = Some ob ->
+     holds_write (th_pc th) o -> wopen (c_chans c) ob (th_pc th)) /\
+  (forall t th o ob p, nth_error (c_threads c) t = Some th -> nth_error (c_objs c) o = Some ob ->
+     holds_read (th_pc th) o -> In p (pc_pairs (th_pc th)) -> In (p_sub p) (o_subs ob)) /\
+  (forall t th k p tm cb wg, nth_error (c_threads c) t = Some th -> th_pc th = PGoSend k p tm cb wg ->
+     is_open (c_chans c) (p_sub p)) /\
+  (forall t th o clone ob ci, nth_error (c_threads c) t = Some th -> th_pc th = PWithOnlyU o clone ->
+     nth_error (c_objs c) o = Some ob -> In ci (o_subs clone) -> In ci (o_subs ob)) /\
+  (forall o ob, nth_error (c_objs c) o = Some ob -> (0 <= o_defbuf ob)%Z) /\
+  (forall t th cl, nth_error (c_threads c) t = Some th -> In cl (th_prog th) -> call_ok cl) /\
+  (forall t th l, nth_error (c_threads c) t = Some th -> th_pc th = PLockWait l -> call_ok (call_of l)).
+
+Definition closing (c : config) (th : thread) : option (oid * cid) :=
+  match th_pc th with
+  | PUnsubClose o idx =>
+      match nth_error (c_objs c) o with
+      | Some ob => match nth_error (o_subs ob) idx with Some ci => Some (o, ci) | None => None end
+      | None => None
+      end
+  | PUnsubAllLoop o (ci :: _) => Some (o, ci)
+  | _ => None
+  end.
+
+(* the next step of thread t, if it closes a channel, does so when no
+   asynchronous sender for that channel is alive and no other PubSub (view)
+   lists the channel *)
+Definition safe_close (c : config) (t : tid) : Prop :=
+  forall th o ci, nth_error (c_threads c) t = Some th -> closing c th = Some (o, ci) ->
+    (forall t' th' k p tm cb wg, nth_error (c_threads c) t' = Some th' -> th_pc th' = PGoSend k p tm cb wg -> p_sub p <> ci) /\
+    (forall o' ob', o' <> o -> nth_error (c_objs c) o' = Some ob' -> ~ In ci (o_subs ob')).
+
+Lemma is_open_upd chs ci cj chn b cp cl :
+  nth_error chs ci = Some chn -> (ci <> cj \/ cl = false) -> is_open chs cj -> is_open (upd ci (Chan b cp cl) chs) cj.
+Proof.
+  intros Hc Hd (chn' & H & O). destruct (Nat.eq_dec ci cj) as [->|N].
+  - destruct Hd as [F| ->]; [congruence|]. eexists. split; [apply nth_error_upd_eq; eapply nth_error_some_lt; eauto|reflexivity].
+  - exists chn'. rewrite nth_error_upd_neq by exact N. auto.
+Qed.
+Lemma is_open_upd_recv chs ci cj chn b cp :
+  nth_error chs ci = Some chn -> is_open chs cj -> is_open (upd ci (Chan b cp (ch_closed chn)) chs) cj.
+Proof.
+  intros Hc Ho. destruct (Nat.eq_dec ci cj) as [->|N].
+  - apply is_open_upd with (chn := chn); auto. right. destruct Ho as (chn' & H & O). congruence.
+  - apply is_open_upd with (chn := chn); auto.
+Qed.
+Lemma is_open_app chs x cj : is_open chs cj -> is_open (chs ++ [x]) cj.
+Proof. intros (chn & H & O). exists chn. split; auto. rewrite nth_error_app1; auto. eapply nth_error_some_lt; eauto. Qed.
+Lemma is_open_new chs n : is_open (chs ++ [Chan [] n false]) (length chs).
+Proof. eexists. split; [rewrite nth_error_app2, Nat.sub_diag by lia; reflexivity|reflexivity]. Qed.
+Lemma is_open_not_closed chs ci chn : is_open chs ci -> nth_error chs ci = Some chn -> ch_closed chn = true -> False.
+Proof. intros (chn' & H & O) H' C. congruence. Qed.
+
+Lemma recv_target_pc thr ci : recv_target thr = Some ci ->
+  th_pc thr = PIdle \/ exists acc, th_pc thr = PRange ci acc.
+Proof.
+  unfold recv_target. destruct (th_pc thr); try discriminate; auto.
+  intro H. injection H as ->. eauto.
+Qed.
+
+Lemma deliver_prog thr v cl : In cl (th_prog (deliver thr v)) -> In cl (th_prog thr).
+Proof.
+  unfold deliver. destruct (th_pc thr) eqn:E; cbn; auto.
+  destruct (th_prog thr) as [|[] ?] eqn:E2; cbn; rewrite ?E2; cbn; auto.
+Qed.
+Lemma deliver_closed_prog thr cl : In cl (th_prog (deliver_closed thr)) -> In cl (th_prog thr).
+Proof.
+  unfold deliver_closed. destruct (th_pc thr) eqn:E; cbn; auto.
+  destruct (th_prog thr) as [|[] ?] eqn:E2; cbn; rewrite ?E2; cbn; auto.
+Qed.
+
+Lemma starts_prog th cl rest x : starts th cl rest -> In x rest -> In x (th_prog th).
+Proof. intros [[_ E]|(l & _ & _ & ->)] H; [rewrite E; right|]; auto. Qed.
+Lemma total_ge {A} (f : A -> nat) l i x : nth_error l i = Some x -> f x <= total f l.
+Proof.
+  unfold total. revert i; induction l as [|y l IH]; intros [|i] H; cbn in *; try discriminate.
+  - injection H as ->. lia.
+  - specialize (IH i H). lia.
+Qed.
+
+Lemma starts_call_ok c t th cl rest :
+  open_inv c -> nth_error (c_threads c) t = Some th -> starts th cl rest -> call_ok cl.
+Proof.
+  intros (_ & _ & _ & _ & _ & _ & O7 & O8) Ht [[_ E]|(l & E & -> & _)].
+  - apply (O7 t th); auto. rewrite E. left; reflexivity.
+  - eapply O8; eauto.
+Qed.
+
+Lemma no_panic_step c t th c' :
+  c_panic c = None -> nth_error (c_threads c) t = Some th -> trans c t th c' ->
+  lock_inv c -> wg_inv c -> open_inv c -> c_panic c' = None.
+Proof.
+  intros Hp Ht T LI (G1 & _) OI.
+  pose proof OI as (O1 & O2 & O3 & O4 & O5 & O6 & O7 & O8).
+  destruct T; try match goal with S : send_trans _ _ _ _ _ _ _ _ _ _ |- _ => inv_send S end; norm; auto; exfalso.
+  - (* Sub with a negative size *)
+    pose proof (starts_call_ok c t th _ rest OI Ht H) as Hok.
+    destruct H0 as [[-> ->]| ->]; cbn in Hok.
+    + specialize (O6 _ _ H1). lia.
+    + lia.
+  - (* synchronous send on a closed channel *)
+    assert (Hr : holds_read (th_pc th) o) by (rewrite H; reflexivity).
+    destruct (reader_no_writer c t th o ob LI Ht H0 Hr) as [Hw _].
+    assert (Hin : In (p_sub p) (o_subs ob)) by (apply (O3 t th o ob p Ht H0 Hr); rewrite H; left; reflexivity).
+    eapply is_open_not_closed; eauto.
+  - (* asynchronous send on a closed channel *)
+    eapply is_open_not_closed; eauto.
+  - (* negative WaitGroup counter *)
+    specialize (G1 (k_tid k) (k_n k)). pose proof (total_ge (owed (k_tid k) (k_n k)) _ _ _ Ht) as Hge.
+    rewrite (owed_pc_eq _ _ th _ H) in Hge. cbn [owed_pc] in Hge. rewrite wg_key_eqb_refl in Hge. lia.
+  - assert (Hw : holds_write (th_pc th) o) by (rewrite H; reflexivity).
+    pose proof (O2 t th o ob Ht H0 Hw) as W. rewrite H in W. destruct W as [_ W].
+    apply nth_error_None in H1. lia.
+  - assert (Hw : holds_write (th_pc th) o) by (rewrite H; reflexivity).
+    pose proof (O2 t th o ob Ht H0 Hw) as W. rewrite H in W. destruct W as [W _].
+    destruct (W ci (nth_error_In _ _ H1)) as (chn & F & _). congruence.
+  - assert (Hw : holds_write (th_pc th) o) by (rewrite H; reflexivity).
+    pose proof (O2 t th o ob Ht H0 Hw) as W. rewrite H in W. destruct W as [W _].
+    eapply is_open_not_closed; eauto. apply W. eapply nth_error_In; eauto.
+  - assert (Hw : holds_write (th_pc th) o) by (rewrite H; reflexivity).
+    destruct LI as (_ & _ & _ & L4 & _). pose proof (L4 t th o Ht (or_intror Hw)) as Lo.
+    destruct (nth_error (c_objs c) o) as [ob|] eqn:Ho; [|apply nth_error_None in Ho; lia].
+    pose proof (O2 t th o ob Ht Ho Hw) as W. rewrite H in W. destruct W as [W _].
+    destruct (W ci (or_introl eq_refl)) as (chn & F & _). congruence.
+  - assert (Hw : holds_write (th_pc th) o) by (rewrite H; reflexivity).
+    destruct LI as (_ & _ & _ & L4 & _). pose proof (L4 t th o Ht (or_intror Hw)) as Lo.
+    destruct (nth_error (c_objs c) o) as [ob|] eqn:Ho; [|apply nth_error_None in Ho; lia].
+    pose proof (O2 t th o ob Ht Ho Hw) as W. rewrite H in W. destruct W as [W _].
+    eapply is_open_not_closed; eauto. apply W. left; reflexivity.
+Qed.
